@@ -345,6 +345,15 @@ def _endpoints(res, tf, tag, name, p, pkey, inverse, case):
             want = r
             if not np.isfinite(r):
                 want = big if trim else inf
+        # the NumPy-scalar call form goes through the scalar branch of the infinity trimming: same image
+        try:
+            with np.errstate(all="ignore"):
+                sc = float(np.asarray(tf.transform(np.float64(r if inverse else x)), dtype=float).reshape(-1)[0])
+            if not (sc == got or abs(sc - got) <= 1e-12 * (1 + abs(got))):
+                res.violation(f"{tag}:endpoint:scalar-form-differs", f"{tag}({pkey}).transform(np.float64({r if inverse else x})) = {sc}, "
+                              f"the array form gives {got}", case)
+        except Exception as exc:
+            res.violation(f"{tag}:endpoint:scalar-form:raised:{type(exc).__name__}", f"{tag}({pkey}).transform(np.float64 end point) raised {exc}", case)
         res.nontrivial()
         ok = (got == want) if not np.isfinite(want) or want == big else abs(got - want) <= 1e-9 * (1 + abs(want))
         if not ok:
